@@ -317,6 +317,13 @@ class CallMixin:
                       args=tuple(args[2:]), how="reactor.callLater", delaynode=node.args[0] if node.args else None)
             yield "ok", h, st
             return
+        if tail[-1] == "import_module" and "importlib" in dotted:
+            # importlib.import_module("<constant name of a repository module>"): that module (an on-demand import)
+            if args and is_const(args[0]) and isinstance(args[0][1], str) and args[0][1] in self.prog.modules and len(args) == 1:
+                yield "ok", ("module", self.prog.modules[args[0][1]]), st
+                return
+            raise AnalysisError("closed-world audit: import_module() of %s at %s:%d is not a constant repository module" % (
+                show(args[0]) if args else "?", fx.func.file, getattr(node, "lineno", 0)))
         if tail[-1] in ("deque",) or dotted in ("collections.deque",):
             yield "ok", ("fresh", "deque", st.uid()), st
             return
@@ -349,6 +356,9 @@ class CallMixin:
         if isinstance(recv, tuple) and recv[0] == "regtop":
             self.emit(st, fx, "REGTOPCALL", node, reg=recv[1], name=name, args=tuple(args))
             yield "ok", ("call", f, tuple(args)), st
+            return
+        if name == "get" and isinstance(recv, tuple) and recv[0] == "functable" and args:
+            yield from self.functable_lookup(recv, args[0], args[1] if len(args) > 1 else None, st, fx, node)
             return
         # constant mapping consulted with .get(key[, default]): every value, or the default on a miss
         if name == "get" and isinstance(recv, tuple) and recv[0] == "constobj" and args:
